@@ -498,7 +498,12 @@ func c07Case(ctx *genCtx, ts *tape.Set, dir string) *genResult {
 	cut := false
 	// quick tier: every other history goes without recovery points at all, so that the batch reaches
 	// more histories (the edit / rerun clauses need histories, the recovery clauses need points)
-	sweepThis := thorough || st.Intn(2) == 0
+	sweepThis := st.Intn(2) == 0
+	if thorough {
+		// thorough tier: a third of the histories get recovery points, half of the enumerated points each:
+		// the 25-minute batch then reaches about three times as many histories as with points for all of them
+		sweepThis = st.Intn(3) == 0
+	}
 	keep := func(always bool) bool {
 		if !sweepThis {
 			return false
@@ -511,7 +516,7 @@ func c07Case(ctx *genCtx, ts *tape.Set, dir string) *genResult {
 			return true
 		}
 		if thorough {
-			return st.Intn(3) == 0 // a third of the enumerated points per history, so that the batch covers many histories
+			return st.Intn(2) == 0
 		}
 		return st.Intn(12) == 0
 	}
